@@ -146,6 +146,25 @@ def znot(x):
     return z3.simplify(z3.Not(zb(x)))
 
 
+def order_violation(r):
+    """r: dict with the six pairwise results 'ab','ba','ac','ca','bc','cb' and 'aa'. returns None or a message.
+    checks reflexivity, antisymmetry of every pair and transitivity of every ordered triple"""
+    rev = {'Less': 'Greater', 'Greater': 'Less', 'Equal': 'Equal'}
+    le = lambda o: o in ('Less', 'Equal')
+    if r['aa'] != 'Equal':
+        return 'cmp(a, a) != Equal'
+    for x, y in (('a', 'b'), ('a', 'c'), ('b', 'c')):
+        if r[y + x] != rev[r[x + y]]:
+            return f"not antisymmetric: cmp({x},{y})={r[x + y]} but cmp({y},{x})={r[y + x]}"
+    import itertools
+    for x, y, z in itertools.permutations('abc'):
+        xy, yz, xz = r[x + y], r[y + z], r[x + z]
+        if le(xy) and le(yz):
+            if not le(xz) or ((xy == 'Less' or yz == 'Less') and xz != 'Less'):
+                return f"not transitive: cmp({x},{y})={xy}, cmp({y},{z})={yz} but cmp({x},{z})={xz}"
+    return None
+
+
 def make(base, name, **kw):
     cls = type(name, (base,), kw)
     cls.name = name
@@ -510,7 +529,7 @@ class C14ValueOrder(E2Harness):
             objs = vals
             cmpf = lambda x, y: ex.call(f_cmp, [Ref(Cell(x)), Ref(Cell(y))])
         a, b, c = objs
-        res = dict(ab=cmpf(a, b).variant, ba=cmpf(b, a).variant, bc=cmpf(b, c).variant, ac=cmpf(a, c).variant, aa=cmpf(a, a).variant)
+        res = dict(ab=cmpf(a, b).variant, ba=cmpf(b, a).variant, bc=cmpf(b, c).variant, cb=cmpf(c, b).variant, ac=cmpf(a, c).variant, ca=cmpf(c, a).variant, aa=cmpf(a, a).variant)
         return res, vals, (names if self.with_attr else None)
 
     def replay_vals(self, m):
@@ -557,18 +576,8 @@ class C14ValueOrder(E2Harness):
             return
         r, vals, names = out[1]
         self.cover('compared')
-        rev = {'Less': 'Greater', 'Greater': 'Less', 'Equal': 'Equal'}
-        le = lambda o: o in ('Less', 'Equal')
-        okv = True
-        msg = ''
-        if r['aa'] != 'Equal':
-            okv, msg = False, 'cmp(a, a) != Equal'
-        elif r['ba'] != rev[r['ab']]:
-            okv, msg = False, f"not antisymmetric: cmp(a,b)={r['ab']} but cmp(b,a)={r['ba']}"
-        elif le(r['ab']) and le(r['bc']) and not le(r['ac']):
-            okv, msg = False, f"not transitive: a<=b ({r['ab']}), b<=c ({r['bc']}) but cmp(a,c)={r['ac']}"
-        elif le(r['ab']) and le(r['bc']) and (r['ab'] == 'Less' or r['bc'] == 'Less') and r['ac'] != 'Less':
-            okv, msg = False, f"not transitive: cmp(a,b)={r['ab']}, cmp(b,c)={r['bc']} but cmp(a,c)={r['ac']}"
+        msg = order_violation(r)
+        okv = msg is None
         if okv:
             # Equal <=> identical values (the sort is a canonicalisation only if ties are real ties)
             same = cdata_equal(vals[0], vals[1], float_eq_rust=True)
@@ -600,6 +609,10 @@ class C19Validator(E2Harness):
     native = ('spec', 'n_c19_validator')
     part = None
     entry = 0
+    exclude = ()
+    fixed_prefix = None      # (byte value, count): the first `count` bytes are this byte (long inputs with a short symbolic tail)
+    max_visits = 4096
+    max_steps = 2000000
 
     def ref_accepts(self, bs):
         """reference automaton over symbolic bytes as one z3 term (no forking); the same term on every path"""
@@ -646,6 +659,13 @@ class C19Validator(E2Harness):
                     raise Infeasible()
             else:
                 ex.assume(z3.URem(self.bs[0], k) == i)
+        if self.fixed_prefix is not None:
+            v, cnt = self.fixed_prefix
+            self.bs = [bv(v, 8)] * min(cnt, self.n) + self.bs[min(cnt, self.n):]
+        for x in self.exclude:
+            for b in self.bs:
+                if not z3.is_bv_value(b):
+                    ex.assume(b != x)
         r = ex.call(self.fn, [Slice(self.bs, 0, self.n, False)])
         return r
 
@@ -655,11 +675,54 @@ class C19Validator(E2Harness):
     def describe(self, m):
         return repr(bytes(model_bytes(m, self.bs)))
 
+    def ref_accepts_fork(self, ex, bs):
+        """reference automaton run by forking on the byte class of each position (for long inputs: states stay concrete)"""
+        d = self.dfa
+        members = {}
+        for v in range(256):
+            members.setdefault(d['cls'][v], []).append(v)
+
+        def in_cls(b, k):
+            rs = []
+            start = prev = None
+            for v in members.get(k, []):
+                if start is None:
+                    start = prev = v
+                elif v == prev + 1:
+                    prev = v
+                else:
+                    rs.append((start, prev))
+                    start = prev = v
+            if start is not None:
+                rs.append((start, prev))
+            return zor(*[z3.And(z3.UGE(b, lo), z3.ULE(b, hi)) for lo, hi in rs]) if rs else False
+        st = 0
+        ks = sorted(members)
+        for b in bs:
+            nxt = None
+            for k in ks[:-1]:
+                if ex.decide(in_cls(b, k)):
+                    nxt = d['trans'][st][k]
+                    break
+            if nxt is None:
+                nxt = d['trans'][st][ks[-1]]
+            st = nxt
+            if st == d.get('dead'):
+                return False
+        return bool(d['accept'][st])
+
     def prop(self, out, ex):
         if out[0] == 'panic':
             self.require(ex, False, 'validator panicked: ' + out[1])
             return
         got = out[1]
+        if self.n > 40:
+            if not isinstance(got, bool):
+                got = ex.decide(got)
+            want = self.ref_accepts_fork(ex, self.bs)
+            self.cover('accepts' if got else 'rejects')
+            self.require(ex, got == want, 'validator and published regex disagree')
+            return
         want = self.ref_accepts(self.bs)
         if isinstance(got, bool):
             self.cover('accepts' if got else 'rejects')
@@ -1037,7 +1100,9 @@ class C18Names(E2Harness):
     n = 2
     part = None
     native = ('spec', 'n_c18_names')
-    max_visits = 256
+    max_visits = 100000
+    max_steps = 5000000
+    bad_item = 0
 
     def run(self, ex):
         install_spec_consts(ex)
@@ -1047,15 +1112,15 @@ class C18Names(E2Harness):
             raise Unsupported(f'from_bytes of {fname}: {len(f)} candidates')
         tab = string_table(fname)
         if self.mode == 'complete':
-            idx = z3.BitVec('item', 16)
-            ex.assume(z3.ULT(idx, len(tab)))
-            if self.part is not None:
-                ex.assume(z3.URem(idx, self.part[1]) == self.part[0])
-            self.idx = idx
-            i = ex.concretize(I(idx, False, 'u16'), limit=len(tab) + 1)
-            text = tab[i]
-            r = ex.call(f[0], [Slice([bv(c, 8) for c in text], 0, len(text), False)])
-            return ('complete', i, r)
+            # finite domain: every item of the table (of this partition) is looked up on the MIR; all data are concrete here,
+            # so the executor decides each lookup without a solver query (exhaustive enumeration, stated as such in the evidence)
+            res = []
+            lo, step = (self.part if self.part is not None else (0, 1))
+            for i in range(lo, len(tab), step):
+                text = tab[i]
+                r = ex.call(f[0], [Slice([bv(c, 8) for c in text], 0, len(text), False)])
+                res.append((i, r))
+            return ('complete', res, None)
         self.bs = sym_bytes('b', self.n)
         if self.part is not None and self.n > 0:
             ex.assume(z3.URem(self.bs[0], self.part[1]) == self.part[0])
@@ -1065,12 +1130,12 @@ class C18Names(E2Harness):
     def replay_vals(self, m):
         t = ['attr', 'enum', 'elem'].index(self.table)
         if self.mode == 'complete':
-            return [[t], [0], le_bytes(m.eval(self.idx, model_completion=True).as_long(), 2)]
+            return [[t], [0], le_bytes(self.bad_item, 2)]
         return [[t], [1], le_bytes(self.n, 8)] + [[x] for x in model_bytes(m, self.bs)]
 
     def describe(self, m):
         if self.mode == 'complete':
-            return f'item {m.eval(self.idx, model_completion=True)}'
+            return f'item {self.bad_item}'
         return repr(bytes(model_bytes(m, self.bs)))
 
     def prop(self, out, ex):
@@ -1080,11 +1145,13 @@ class C18Names(E2Harness):
         kind, i, r = out[1]
         tab = string_table(TABLES[self.table][0])
         if kind == 'complete':
-            self.cover('item looked up')
-            if r.variant != 'Ok':
-                self.require(ex, False, 'the text of an item is not accepted by from_bytes')
-                return
-            self.require(ex, r.fields[0].e == bv(i, 16), 'text -> item returns a different item')
+            for idx, rr in i:
+                self.cover('item looked up')
+                self.bad_item = idx
+                if rr.variant != 'Ok':
+                    self.require(ex, False, f'the text of item {idx} ({tab[idx].decode()}) is not accepted by from_bytes')
+                elif rr.fields[0].conc() != idx:
+                    self.require(ex, False, f'text -> item returns a different item for item {idx} ({tab[idx].decode()})')
             return
         if r.variant == 'Ok':
             self.cover('text accepted')
@@ -1137,3 +1204,251 @@ class C20FloatSpecial(E2Harness):
         g = r.fields[0].e
         same = z3.Or(z3.And(z3.fpIsNaN(v), z3.fpIsNaN(g)), z3.fpEQ(v, g))
         self.require(ex, same, 'format -> parse of a non-finite float returns a different value')
+
+
+# =====================================================================================================
+# parse_attribute_text: splitting of the attribute text of a start tag, lookup, value parsing, required attributes
+# =====================================================================================================
+def install_attr_models(models, rows):
+    """rows: [(name I u16, spec Ref, required bool/z3 Bool, mask I u32)]: the attribute table of the element type the harness
+    parses for. AttributeName::from_bytes is an arbitrary deterministic lookup (uninterpreted)."""
+    def from_bytes(ex, c, a):
+        bs = as_bytes_list(ex, a[0])
+        if ex.decide(UF.app('attrname_known', bs, z3.BoolSort(), None)):
+            return ok(I(UF.app('attrname_of', bs, z3.BitVecSort(16), None), False, 'u16'))
+        return err(Opaque('ParseAttributeNameError'))
+
+    def find_attribute_spec(ex, c, a):
+        name = a[1]
+        for nm, spec, req, mask in rows:
+            if ex.decide(name.e == nm.e):
+                return some(Agg('AttributeSpec', None, [spec, req, mask]))
+        return NONE()
+
+    def spec_iter(ex, c, a):
+        items = [Agg('tuple', None, [nm, spec, req]) for nm, spec, req, mask in rows]
+        from mirexec import Iter
+        return Iter('attrdefs', Slice(items, 0, len(items), False), 0)
+
+    def spec_iter_next(ex, c, a):
+        it = ex.deref(a[0])
+        if it.pos >= it.slice.len:
+            return NONE()
+        v = it.slice.buf[it.pos]
+        it.pos += 1
+        return some(v)
+    for pat, fn in ((r'^autosar_data_specification::AttributeName::from_bytes$', from_bytes),
+                    (r'^autosar_data_specification::ElementType::find_attribute_spec$', find_attribute_spec),
+                    (r'^autosar_data_specification::ElementType::attribute_spec_iter$', spec_iter),
+                    (r'^<AttrDefinitionsIter as Iterator>::next$', spec_iter_next),
+                    (r'^<autosar_data_specification::AttributeName as ToString>::to_string$', lambda ex, c, a: Str([]))):
+        models.add(pat, fn, prefer=True)
+        models.rx.insert(0, models.rx.pop())
+
+
+@register
+class AttrText(ParserHarness):
+    """strict and lenient parse_attribute_text on the same symbolic attribute text, for an element type with two attributes
+    (a string-typed one and an unsigned-integer one) whose names, `required` flags and version masks are symbolic"""
+    native = ('data', 'n_attr_text')
+    ascii_only = True
+    mode = 'relational'      # relational (C08) | total (C02: one run, any bytes)
+
+    def run(self, ex):
+        f = find_fn(ex.prog, '::parse_attribute_text', 'parser.rs')
+        inp = self.inputs(ex)
+        self.names = [z3.BitVec('attr_a', 16), z3.BitVec('attr_b', 16)]
+        ex.assume(self.names[0] != self.names[1])
+        self.req = [z3.Bool('req_a'), z3.Bool('req_b')]
+        self.masks = [z3.BitVec('mask_a', 32), z3.BitVec('mask_b', 32)]
+        self.fv = z3.BitVec('fileversion', 32)
+        ex.assume(z3.And(self.fv != 0, (self.fv & (self.fv - 1)) == 0, z3.ULT(self.fv, 1 << 21)))
+        specs = [Ref(Cell(spec_string(False, None))), Ref(Cell(spec_uint()))]
+        rows = [(I(self.names[i], False, 'u16'), specs[i], self.req[i], I(self.masks[i], False, 'u32')) for i in range(2)]
+        install_attr_models(ex.models, rows)
+        et = Agg('ElementType', None, [mk_int(0, 'u16'), mk_int(0, 'u16')])
+        outs = []
+        for strict in ((True, False) if self.mode == 'relational' else (self.strict,)):
+            p = self.parser(strict)
+            p.fields[P_FILEVERSION] = I(self.fv, False, 'u32')
+            r = ex.call(f, [Ref(Cell(p)), et, inp])
+            outs.append((r, p))
+        return outs
+
+    def replay_vals(self, m):
+        return ([le_bytes(self.n, 8)] + [[x] for x in model_bytes(m, self.bs)] +
+                [[1 if self.mode == 'relational' else 0], [1 if self.strict else 0]])
+
+    def attrs_of(self, r):
+        return r.fields[0].items
+
+    def prop(self, out, ex):
+        if out[0] == 'panic':
+            self.cover('panic')
+            self.require(ex, False, 'panic while parsing attribute text: ' + out[1])
+            return
+        outs = out[1]
+        for r, p in outs:
+            if r.variant == 'Err':
+                l, _ = err_parts(r.fields[0])
+                self.require(ex, self.line_ok(l), 'error names a line outside the document')
+            for w in warnings_of(p):
+                wl, _ = err_parts(w)
+                self.require(ex, self.line_ok(wl), 'warning names a line outside the document')
+        if self.mode != 'relational':
+            self.cover('parsed')
+            return
+        (rs, ps), (rl, pl) = outs
+        wl = warnings_of(pl)
+        if rs.variant == 'Ok':
+            self.cover('strict accepts')
+            self.require(ex, rl.variant == 'Ok', 'strict accepts attribute text that lenient rejects')
+            self.require(ex, len(wl) == 0, 'lenient warns about attribute text that strict accepts')
+            a_s = self.attrs_of(rs)
+            if rl.variant == 'Ok':
+                a_l = self.attrs_of(rl)
+                self.require(ex, len(a_s) == len(a_l), 'strict and lenient produce a different number of attributes')
+                if len(a_s) == len(a_l):
+                    for x, y in zip(a_s, a_l):
+                        self.require(ex, zand(x.fields[0].e == y.fields[0].e, cdata_equal(x.fields[1], y.fields[1])), 'strict and lenient produce different attributes')
+            # no holes: required attributes present; every attribute listed for the type and available in the file version
+            for i in range(2):
+                present = zor(*[a.fields[0].e == self.names[i] for a in a_s]) if a_s else False
+                self.require(ex, zor(znot(self.req[i]), present), 'strict loading accepts an element without a required attribute')
+            for a in a_s:
+                listed = zor(*[zand(a.fields[0].e == self.names[i], (self.masks[i] & self.fv) != 0) for i in range(2)])
+                self.require(ex, listed, 'strict loading accepts an attribute that is unknown for the element or not available in the file version')
+        else:
+            self.cover('strict rejects')
+            _, ssrc = err_parts(rs.fields[0])
+            if rl.variant == 'Ok':
+                self.require(ex, len(wl) > 0, 'lenient silently accepts attribute text that strict rejects')
+                if wl:
+                    _, wsrc = err_parts(wl[0])
+                    self.require(ex, wsrc.variant == ssrc.variant, f'strict error ({ssrc.variant}) is not the first lenient warning ({wsrc.variant})')
+            else:
+                self.cover('both reject')
+
+
+# =====================================================================================================
+# C14: the element comparison sort is built on (item names, incl. the numeric-suffix rule)
+# =====================================================================================================
+def name_index(fname, text):
+    return string_table(fname).index(text)
+
+
+def install_element_models(models):
+    """ElementType queries of the specification crate for the two element types the harness builds:
+    type id 1 = named container (content mode Elements), type id 2 = SHORT-NAME (content mode Characters)"""
+    install_to_str_models(models)
+    tab = string_table('elementname.rs')
+
+    def elem_to_str(ex, c, a):
+        from mirexec import str_slice
+        v = ex.deref(a[0]) if isinstance(a[0], (Ref, ElemRef)) else a[0]
+        return str_slice(tab[ex.concretize(v, limit=8)])
+
+    def content_mode(ex, c, a):
+        t = ex.deref(a[0]) if isinstance(a[0], (Ref, ElemRef)) else a[0]
+        return Agg('ContentMode', 'Characters' if t.fields[1].conc() == 2 else 'Sequence', [])
+
+    def is_named(ex, c, a):
+        t = ex.deref(a[0]) if isinstance(a[0], (Ref, ElemRef)) else a[0]
+        return t.fields[1].conc() == 1
+    for pat, fn in ((r'^autosar_data_specification::ElementName::to_str$', elem_to_str),
+                    (r'^autosar_data_specification::ElementType::content_mode$', content_mode),
+                    (r'^autosar_data_specification::ElementType::is_named$', is_named)):
+        models.add(pat, fn, prefer=True)
+        models.rx.insert(0, models.rx.pop())
+    for variant, text in (('Index', b'INDEX'), ('ShortName', b'SHORT-NAME'), ('DefinitionRef', b'DEFINITION-REF'), ('ArPackage', b'AR-PACKAGE')):
+        v = mk_int(name_index('elementname.rs', text), 'u16')
+        models.consts[f'autosar_data_specification::ElementName::{variant}'] = v
+        models.consts[f'ElementName::{variant}'] = v
+    d = mk_int(name_index('attributename.rs', b'DEST'), 'u16')
+    models.consts['autosar_data_specification::AttributeName::Dest'] = d
+    models.consts['AttributeName::Dest'] = d
+
+
+def mk_element(elemname_idx, typ, content, attributes=()):
+    raw = Agg('ElementRaw', None, [Agg('ElementOrModel', 'None', []), mk_int(elemname_idx, 'u16'),
+                                   Agg('ElementType', None, [mk_int(0, 'u16'), mk_int(typ, 'u16')]),
+                                   VecV(list(content), ty='SmallVec'), VecV(list(attributes), ty='SmallVec'), Opaque('HashSet'), NONE()])
+    lock = Agg('RwLock', None, [raw])
+    return Agg('Element', None, [Agg('Arc', None, [Ref(Cell(lock))])])
+
+
+@register
+class C14ElementOrder(E2Harness):
+    """three sibling elements of the same kind that differ only in their item name (SHORT-NAME text): the real
+    `impl Ord for Element` (with item_name, decompose_item_name, get_sub_element, character_data ...) must order them consistently"""
+    lens = [2, 3, 4]
+    native = ('data', 'n_c14_element_order')
+    max_visits = 256
+    max_steps = 200000
+
+    def run(self, ex):
+        install_element_models(ex.models)
+        ex.tbind = ['u64']
+        f_cmp = find_fn(ex.prog, '::cmp', 'element.rs:2240') if any('element.rs:2240' in n for n in ex.prog.raw) else None
+        if f_cmp is None:
+            cands = [n for n in ex.prog.raw if n.endswith('::cmp') and 'element.rs' in n and 'closure' not in n]
+            if len(cands) != 1:
+                raise Unsupported(f'impl Ord for Element: {len(cands)} candidates')
+            f_cmp = cands[0]
+        sn = name_index('elementname.rs', b'SHORT-NAME')
+        pk = name_index('elementname.rs', b'AR-PACKAGE')
+        from models import is_alpha, is_digit
+        self.names = []
+        elems = []
+        for t, k in zip('abc', self.lens):
+            bs = sym_bytes(f'{t}_n', k)
+            # valid item names: a letter, then letters / digits / underscore (what the editing API and the loader accept)
+            ex.assume(is_alpha(bs[0]))
+            for b in bs[1:]:
+                ex.assume(z3.Or(is_alpha(b), is_digit(b), b == 0x5f))
+            self.names.append(bs)
+            short = mk_element(sn, 2, [Agg('ElementContent', 'CharacterData', [cdata_string(list(bs))])])
+            elems.append(mk_element(pk, 1, [Agg('ElementContent', 'Element', [short])]))
+        a, b, c = elems
+        cmpf = lambda x, y: ex.call(f_cmp, [Ref(Cell(x)), Ref(Cell(y))])
+        return dict(ab=cmpf(a, b).variant, ba=cmpf(b, a).variant, bc=cmpf(b, c).variant, cb=cmpf(c, b).variant, ac=cmpf(a, c).variant, ca=cmpf(c, a).variant, aa=cmpf(a, a).variant)
+
+    def replay_vals(self, m):
+        out = []
+        for bs in self.names:
+            out += [le_bytes(len(bs), 8)] + [[x] for x in model_bytes(m, bs)]
+        return out
+
+    def describe(self, m):
+        return ', '.join(repr(bytes(model_bytes(m, bs))) for bs in self.names)
+
+    def classify(self, m):
+        """recorded finding: among the three names one pair shares its base (text before the decimal suffix) and is compared by
+        number, another pair has different bases and is compared as text. Any other failure is a new violation."""
+        import re as _re
+        names = [bytes(model_bytes(m, bs)) for bs in self.names]
+        bases = []
+        for n_ in names:
+            mm = _re.match(rb'^(.*?)(\d+)$', n_)
+            bases.append(mm.group(1) if mm else None)
+        dec = [b for b in bases if b is not None]
+        if len(dec) >= 2 and len(set(dec)) < len(dec) and (len(set(dec)) > 1 or len(dec) < 3):
+            return 'C14-element-name-order-cycle'
+        return None
+
+    def prop(self, out, ex):
+        if out[0] == 'panic':
+            self.require(ex, False, 'element comparison panicked: ' + out[1])
+            return
+        r = out[1]
+        self.cover('compared')
+        msg = order_violation(r)
+        if msg is not None:
+            if msg.startswith('not transitive'):
+                self.require(ex, False, msg, classify=self.classify)
+            else:
+                self.require(ex, False, msg)
+        else:
+            for (i, j, k) in ((0, 1, 'ab'), (0, 2, 'ac'), (1, 2, 'bc')):
+                same = bytes_eq(self.names[i], self.names[j])
+                self.require(ex, same if r[k] == 'Equal' else znot(same), f'cmp({k[0]},{k[1]}) == Equal is not the same as equal item names')
